@@ -29,7 +29,8 @@ def run(ctx, model_ok):
                             "(exact-arithmetic termination with an explicit iteration bound IS proved for the scalar loops cel_iter0 and cel0, and for BHJM_circle on every input)",
                             "termination of the vectorised celv (per entry the cel0 loop executed at least once, without the kc == 0 guard) and of the el3 iterations: not modelled "
                             "(cel_iterv and the dispatcher cel_iter ARE modelled, tied by the kern stream and proved to terminate on batches)",
-                            "definedness of the CylinderSegment closed form off its special sets (not ported). Cuboid: the edge mask is proved to cover the zero set of all 24 logarithm factors "
+                            "definedness of the CylinderSegment closed form off its special sets (ported with opaque special functions; no theorem, in particular none that bhjmCylSeg / "
+                            "bhjmCylSegInternal returns a value). Cuboid: the edge mask is proved to cover the zero set of all 24 logarithm factors "
                             "(`cuboid_defined_off_edges`), arctan2(0,0) is proved to occur exactly on the three edge lines incl. their extensions, where the general branch IS reached "
                             "(`cuboid_edge_extension_reaches_general`; harmless in IEEE arithmetic, probed); Triangle: defined off the closed edges EXCEPT on a spherical cap inside the branch-switch cone "
                             "(`triangle_defined_off_edges`, `triangle_cap_singular`; recorded finding near-vertex); Polyline: `polyline_masks_cover_singular`; "
@@ -37,7 +38,16 @@ def run(ctx, model_ok):
                             "divide by positive numbers only and to need no elliptic integral (`cylinder_axis_branch_defined`); every cel0 call of both kernels is proved to have a "
                             "non-zero modulus off the masked edge and to return, hence BHJM_magnet_cylinder returns for every input with d > 0, h >= 0 (`cylinder_terminates`); "
                             "non-vanishing of the other divisors of the general diametral branch (r, r^2, ap, am) and of cel0's prologue is not shown; "
-                            "Circle: divisors of the general and on-axis branches and of the cel_iter0 loop are proved positive, cel0's divisors (pp, g in the p <= 0 prologue) are not"]
+                            "Circle: divisors of the general and on-axis branches and of the cel_iter0 loop are proved positive, cel0's divisors (pp, g in the p <= 0 prologue) are not",
+                            "all definedness theorems enumerate the divisors / sqrt / log / arctan2 arguments of a kernel BY HAND (dipole_defined_off_position, sphere_outside_divisor, "
+                            "segment_length_pos do not even mention a model function); completeness of a list is by reading — equality ties to the model exist only for the Cuboid logs / "
+                            "arctan2 and the Triangle edge integral; the partial-real carrier (Option R) planned in DESIGN §2/§6 to make this mechanical was not built",
+                            "fuel: the bounds celFuel / cylFuelX / circleFuelX depend on the input and grow without limit as a modulus tends to 0 or infinity; <= 200 (the driver's fuel) is shown "
+                            "only for cel_iter0's start with 1e-40 <= q <= 1e40; Cylinder axial kernel: divisors sq0, sq1, dpr not stated; cylKd != 0 at (z +- z0 = 0, r = 1) holds only "
+                            "through x/0 = 0 (those rows are on the edge and masked)",
+                            "'returns finite numbers of the documented shape' and 'the ONLY non-finite results are at the documented singular points': the converse direction is false on this "
+                            "tree (known findings near-edge / near-vertex / denormal distance)",
+                            "polyline_* theorems are about bhjmSegment, tied to the code by the poly stream, which this check does not run (checks/C06.py does)"]
 
 
 def replay(ctx, payload):
